@@ -15,7 +15,22 @@
 //!     relationship exactly once);
 //!  3. a deleted node is not readable at the current version (`get_node`, `has_node`).
 //!
-//! Signature: `C07/<view>/<clause>/<shape>/after_<kind of the last write to that entity>`.
+//! Signature: `C07/<view>/<clause>/<shape>/[reused_id/]after_<kind of the last write to that entity>`.
+//!
+//! Id reuse (knob `reuse_ids`, only meaningful with deletes): creation continues after a
+//! deletion, the store hands the freed id out again and the entity created under it is a
+//! *new entity* (new incarnation of the id).  Its reads at versions >= its creation version
+//! are asserted like any other (stable + equal to the reference snapshot) and carry the state
+//! class `reused_id` while it is alive; reads of a reused id at versions *before* the creation
+//! of its present holder are not asserted at all: they belong to the dead predecessor, whose
+//! history the store is known not to keep (listed findings "old-version reads vanish after
+//! delete" / "relationship readable before its creation version").
+//!
+//! Re-synchronisation: the two lifetime-boundary divergences that are listed findings today
+//! (all old reads of a just-deleted entity turn absent; a relationship shows up at versions
+//! before its creation) are reported and then *muted for that id below the boundary version*
+//! instead of ending the run, so that a history can go on to delete-then-recreate.  Every
+//! other violation still ends the run.
 
 use crate::kit::core::*;
 use crate::kit::model::*;
@@ -89,6 +104,28 @@ pub fn gen_hist_event(r: &mut Rng, c: &GenCfg) -> Value {
     }
 }
 
+/// Relationship-centred event for the runs that reuse ids: relationships are few (<= 2) and
+/// the shared mix rarely writes, deletes and re-creates one inside a short history.
+fn gen_edge_churn_event(r: &mut Rng, c: &GenCfg) -> Value {
+    let w: [u32; 5] = [
+        4,                                                        // create_edge
+        if c.allow_edge_props { 5 } else { 0 },                   // set_eprop
+        if c.allow_edge_props && c.allow_remove { 2 } else { 0 }, // remove_eprop
+        4,                                                        // delete_edge
+        4,                                                        // bump
+    ];
+    match r.weighted(&w) {
+        0 => {
+            let props = if r.chance(1, 2) { gen_props(r) } else { json!({}) };
+            json!({"op":"create_edge","s":r.below(8),"t":r.below(8),"type":r.below(2),"props":props})
+        }
+        1 => json!({"op":"set_eprop","e":r.below(4),"key":r.below(2),"val":gen_small_value(r)}),
+        2 => json!({"op":"remove_eprop","e":r.below(4),"key":r.below(2)}),
+        3 => json!({"op":"delete_edge","e":r.below(4)}),
+        _ => json!({"op":"bump","via":"txn"}),
+    }
+}
+
 pub fn shrink_hist_event(ev: &Value) -> Vec<Value> {
     let mut out = Vec::new();
     match op(ev) {
@@ -133,6 +170,18 @@ pub fn shrink_hist_event(ev: &Value) -> Vec<Value> {
 struct Recorded {
     nodes: BTreeMap<(u64, u64), Option<NState>>,
     edges: BTreeMap<(u64, u64), Option<EState>>,
+    /// reads of this id at versions below the stored one are not asserted (any more): either
+    /// the id was reused (versions before the creation of its present holder), or a listed
+    /// lifetime-boundary divergence was reported for it and the run went on
+    node_from: BTreeMap<u64, u64>,
+    edge_from: BTreeMap<u64, u64>,
+}
+
+fn raise(map: &mut BTreeMap<u64, u64>, id: u64, to: u64) {
+    let e = map.entry(id).or_insert(0);
+    if *e < to {
+        *e = to;
+    }
 }
 
 fn shape<T: PartialEq>(before: &Option<T>, after: &Option<T>) -> &'static str {
@@ -149,13 +198,28 @@ struct Check<'a> {
     step: usize,
     trigger: &'a str,
     out: Vec<Violation>,
+    /// a violation was reported after which model and store cannot be re-synchronised
+    stop: bool,
+    resynced: bool,
+    /// asserted reads of a live entity under a reused id: (nodes, relationships, relationships
+    /// whose dead predecessor had a version log)
+    reused_reads: (u64, u64, u64),
 }
 
 impl<'a> Check<'a> {
-    fn fail(&mut self, sig: String, detail: String) {
+    fn push(&mut self, sig: String, detail: String) {
         if self.out.len() < 8 && !self.out.iter().any(|v| v.signature == sig) {
             self.out.push(Violation::new(sig, format!("after {} (step {}, current_version {}): {}", self.trigger, self.step, self.m.current, detail), self.step));
         }
+    }
+    fn fail(&mut self, sig: String, detail: String) {
+        self.stop = true;
+        self.push(sig, detail);
+    }
+    /// report, but the caller mutes the diverged reads and the run goes on
+    fn fail_resync(&mut self, sig: String, detail: String) {
+        self.resynced = true;
+        self.push(sig, detail);
     }
 }
 
@@ -228,7 +292,7 @@ fn check_count(c: &mut Check, view: &str, got: i64) {
     }
     let class = if got < want {
         "under"
-    } else if m.any_dead_node() {
+    } else if m.ever_deleted_node {
         "over/history_has_deleted_node"
     } else {
         "over/no_deletion_in_history"
@@ -242,21 +306,41 @@ fn check_all(c: &mut Check, rec: &mut Recorded, eng: Option<&QueryEngine>) {
     let m = c.m;
     // ---- clause 1: reads at versions older than current
     for id in 1..=m.max_node() + 1 {
-        let cause = m.nodes.get(&id).map(|n| n.last_write).unwrap_or("never_created");
-        for v in 1..m.current {
+        let ent = m.nodes.get(&id);
+        let cause = ent.map(|n| n.last_write).unwrap_or("never_created");
+        // the present holder of a reused id is a new entity: asserted from its creation on
+        if let Some(n) = ent {
+            if n.incarnation > 0 {
+                raise(&mut rec.node_from, id, n.created_at);
+            }
+        }
+        let reused_live = ent.map(|n| n.alive && n.incarnation > 0).unwrap_or(false);
+        let class = if reused_live { "reused_id/" } else { "" };
+        let from = rec.node_from.get(&id).cloned().unwrap_or(0).max(1);
+        let mut mute_to = 0u64;
+        for v in from..m.current {
             let got = read_node(g, id, v);
             let want = m.snaps.get(&v).and_then(|s| s.nodes.get(&id)).cloned();
+            if reused_live {
+                c.reused_reads.0 += 1;
+            }
             match rec.nodes.get(&(id, v)) {
                 Some(first) if *first != got => {
-                    c.fail(
-                        format!("C07/node_at_version/changed/{}/after_{cause}", shape(first, &got)),
-                        format!("node {id} at version {v}: first read {} now {} (state as of {v}: {})", show_n(first), show_n(&got), show_n(&want)),
-                    );
+                    let sh = shape(first, &got);
+                    let sig = format!("C07/node_at_version/changed/{sh}/{class}after_{cause}");
+                    let detail = format!("node {id} at version {v}: first read {} now {} (state as of {v}: {})", show_n(first), show_n(&got), show_n(&want));
+                    // every old read of a deleted node turns absent: report, mute its past, go on
+                    if sh == "vanished" && ent.map(|n| !n.alive).unwrap_or(false) {
+                        c.fail_resync(sig, detail);
+                        mute_to = m.current;
+                    } else {
+                        c.fail(sig, detail);
+                    }
                 }
                 _ => {
                     if got != want {
                         c.fail(
-                            format!("C07/node_at_version/wrong_state/{}/after_{cause}", shape(&want, &got)),
+                            format!("C07/node_at_version/wrong_state/{}/{class}after_{cause}", shape(&want, &got)),
                             format!("node {id} at version {v}: read {} but its state as of {v} was {}", show_n(&got), show_n(&want)),
                         );
                     }
@@ -264,29 +348,64 @@ fn check_all(c: &mut Check, rec: &mut Recorded, eng: Option<&QueryEngine>) {
             }
             rec.nodes.entry((id, v)).or_insert(got);
         }
+        if mute_to > 0 {
+            raise(&mut rec.node_from, id, mute_to);
+        }
     }
     for id in 1..=m.max_edge() + 1 {
-        let cause = m.edges.get(&id).map(|e| e.last_write).unwrap_or("never_created");
-        for v in 1..m.current {
+        let ent = m.edges.get(&id);
+        let cause = ent.map(|e| e.last_write).unwrap_or("never_created");
+        if let Some(e) = ent {
+            if e.incarnation > 0 {
+                raise(&mut rec.edge_from, id, e.created_at);
+            }
+        }
+        let reused_live = ent.map(|e| e.alive && e.incarnation > 0).unwrap_or(false);
+        let pred_log = reused_live && ent.map(|e| e.pred_prop_writes > 0).unwrap_or(false);
+        let class = if reused_live { "reused_id/" } else { "" };
+        let from = rec.edge_from.get(&id).cloned().unwrap_or(0).max(1);
+        let mut mute_to = 0u64;
+        for v in from..m.current {
             let got = read_edge(g, id, v);
             let want = m.snaps.get(&v).and_then(|s| s.edges.get(&id)).cloned();
+            if reused_live {
+                c.reused_reads.1 += 1;
+                if pred_log {
+                    c.reused_reads.2 += 1;
+                }
+            }
             match rec.edges.get(&(id, v)) {
                 Some(first) if *first != got => {
-                    c.fail(
-                        format!("C07/edge_at_version/changed/{}/after_{cause}", shape(first, &got)),
-                        format!("relationship {id} at version {v}: first read {} now {} (state as of {v}: {})", show_e(first), show_e(&got), show_e(&want)),
-                    );
+                    let sh = shape(first, &got);
+                    let sig = format!("C07/edge_at_version/changed/{sh}/{class}after_{cause}");
+                    let detail = format!("relationship {id} at version {v}: first read {} now {} (state as of {v}: {})", show_e(first), show_e(&got), show_e(&want));
+                    let dead = ent.map(|e| !e.alive).unwrap_or(false);
+                    let before_creation = ent.map(|e| e.alive && v < e.created_at).unwrap_or(false);
+                    if sh == "vanished" && dead {
+                        // every old read of a deleted relationship turns absent
+                        c.fail_resync(sig, detail);
+                        mute_to = mute_to.max(m.current);
+                    } else if sh == "appeared" && before_creation {
+                        // a live relationship shows up at versions before its creation
+                        c.fail_resync(sig, detail);
+                        mute_to = mute_to.max(ent.map(|e| e.created_at).unwrap_or(0));
+                    } else {
+                        c.fail(sig, detail);
+                    }
                 }
                 _ => {
                     if got != want {
                         c.fail(
-                            format!("C07/edge_at_version/wrong_state/{}/after_{cause}", shape(&want, &got)),
+                            format!("C07/edge_at_version/wrong_state/{}/{class}after_{cause}", shape(&want, &got)),
                             format!("relationship {id} at version {v}: read {} but its state as of {v} was {}", show_e(&got), show_e(&want)),
                         );
                     }
                 }
             }
             rec.edges.entry((id, v)).or_insert(got);
+        }
+        if mute_to > 0 {
+            raise(&mut rec.edge_from, id, mute_to);
         }
     }
     // ---- clause 3: deleted node unreadable at current
@@ -357,7 +476,7 @@ impl Scenario for C07 {
         }
     }
     fn rule(&self) -> &'static str {
-        "history = PRNG-generated sequence (3..16 events, biased short) of store-level writes over <=3 nodes and <=2 relationships (create with/without properties, set/remove node property, add/remove label, set/remove relationship property, delete node/relationship) and version bumps (begin+commit of a transaction, or the public current_version field); per-run knobs switch deletes / removes / label ops / relationship-property ops off so that a known-bad construct cannot hide the rest. After every step every (entity, version < current) read is compared with the first read recorded at that version and with the reference snapshot, deleted nodes are probed at current, and node_count / all_nodes / two Cypher scans are compared with the live set. Id reuse is excluded (no creation after a deletion of the same kind). Non-trivial = the version advanced at least once and some entity was written at a version later than the one it was created at. Distinct = hash of the sequence of (op kind, resolved entity ranks, key/label index). Sampled, not exhaustive."
+        "history = PRNG-generated sequence (3..16 events, biased short) of store-level writes over <=3 live nodes and <=2 live relationships (create with/without properties, set/remove node property, add/remove label, set/remove relationship property, delete node/relationship) and version bumps (begin+commit of a transaction, or the public current_version field); per-run knobs switch deletes / removes / label ops / relationship-property ops off so that a known-bad construct cannot hide the rest. After every step every (entity, version < current) read is compared with the first read recorded at that version and with the reference snapshot, deleted nodes are probed at current, and node_count / all_nodes / two Cypher scans are compared with the live set. Id reuse: in 2/3 of the runs with deletes (knob reuse_ids) creation goes on after deletions, so the store hands freed node / relationship ids out again; those runs start with two nodes and a relationship, are 3 events longer, draw a third of their events from a relationship-centred mix, follow most deletions by a creation of the same kind and half of the relationship creations by a property write. The entity created under a reused id is a new entity: its reads at versions >= its creation version are asserted (state class reused_id), reads of the id at versions before that are not. In the other runs no entity is created after a deletion of the same kind. The two listed lifetime-boundary divergences (old reads of a deleted entity turn absent; a relationship is readable before its creation version) are reported and muted for that id below the boundary version, the run goes on; any other violation ends the run. Non-trivial = the version advanced at least once and some entity was written at a version later than the one it was created at. Distinct = hash of the sequence of (op kind, resolved entity ranks, key/label index, reused-id marker). Sampled, not exhaustive."
     }
     fn real_components(&self) -> Vec<&'static str> {
         vec![
@@ -370,12 +489,25 @@ impl Scenario for C07 {
             "state of a node = labels + non-null row properties as returned by get_node_at_version; of a relationship = endpoints, type, non-null properties; the version stamp and timestamps carried by the returned object are not compared",
             "state as of version v = the state the entity had when current_version moved past v (writes are stamped with the current version)",
             "label changes count as writes to the node (the statement says 'any history of writes'); they carry their own signature cause so they can be judged separately",
-            "entity ids are not reused inside a history (no create after a delete of the same kind)",
+            "an entity created under the id of a deleted one is a different entity: nothing is asserted about reads of that id at versions before the new entity's creation version (they would be reads of the dead predecessor, or of nothing), everything about reads at or after it; without the reuse_ids knob ids are not reused inside a history (no create after a delete of the same kind)",
+            "after one of the two listed lifetime-boundary divergences the reads of that id below the boundary version are no longer asserted (they already differ); all other reads, scans and counts stay asserted",
             "clause 3 is checked for nodes only (the statement names nodes)",
         ]
     }
     fn required_probes(&self, _tier: Tier) -> Vec<&'static str> {
-        vec!["node_written_at_2_versions", "edge_written_at_2_versions", "entity_created_after_version_1", "remove_after_bump", "versions_ge_4"]
+        vec![
+            "node_written_at_2_versions",
+            "edge_written_at_2_versions",
+            "entity_created_after_version_1",
+            "remove_after_bump",
+            "versions_ge_4",
+            "node_id_reused",
+            "edge_id_reused",
+            "reused_node_read_at_older_version",
+            "reused_edge_read_at_older_version",
+            "reused_edge_after_logged_predecessor_read_at_older_version",
+            "went_on_after_lifetime_boundary_divergence",
+        ]
     }
     fn generate(&self, s: &mut Streams, _run_index: u64, _tier: Tier) -> Case {
         let mut case = Case::new("C07");
@@ -397,6 +529,11 @@ impl Scenario for C07 {
         case.knobs.insert("cypher".into(), json!(cypher));
         // most histories start with the two nodes and the relationship of the quantifier
         let pre = s.knobs.below(4);
+        // drawn after all other knobs, so those are what they were before this knob existed
+        let reuse_ids = cfg.allow_delete && s.knobs.chance(2, 3);
+        case.knobs.insert("reuse_ids".into(), json!(reuse_ids));
+        // a delete-and-recreate history needs something to delete and room to go on afterwards
+        let (pre, n) = if reuse_ids { (3, n + 3) } else { (pre, n) };
         if pre >= 1 {
             let p = if s.workload.chance(1, 2) { gen_props(&mut s.workload) } else { json!({}) };
             case.events.push(json!({"op":"create_node","labels":[s.workload.below(2)],"props":p}));
@@ -408,8 +545,43 @@ impl Scenario for C07 {
             let p = if s.workload.chance(1, 2) { gen_props(&mut s.workload) } else { json!({}) };
             case.events.push(json!({"op":"create_edge","s":0,"t":1,"type":0,"props":p}));
         }
+        // with reuse: most deletions are followed, 0..2 events later, by a creation of the same
+        // kind (which then gets the freed id); `due` = countdown of pending re-creations
+        let mut due: Vec<(u64, Value)> = Vec::new();
         for _ in 0..n {
-            case.events.push(gen_hist_event(&mut s.workload, &cfg));
+            let ev = if reuse_ids && s.workload.chance(1, 3) { gen_edge_churn_event(&mut s.workload, &cfg) } else { gen_hist_event(&mut s.workload, &cfg) };
+            let kind = op(&ev).to_string();
+            case.events.push(ev);
+            let mut i = 0;
+            while i < due.len() {
+                if due[i].0 == 0 {
+                    let (_, e) = due.remove(i);
+                    case.events.push(e);
+                } else {
+                    due[i].0 -= 1;
+                    i += 1;
+                }
+            }
+            if reuse_ids && kind == "create_edge" && cfg.allow_edge_props && s.workload.chance(1, 2) {
+                // ... and half of the relationships are written soon after their creation
+                let r = &mut s.workload;
+                due.push((r.below(3), json!({"op":"set_eprop","e":r.below(4),"key":r.below(2),"val":gen_small_value(r)})));
+            }
+            if reuse_ids && (kind == "delete_edge" || kind == "delete_node") && s.workload.chance(2, 3) {
+                let r = &mut s.workload;
+                let wait = r.below(3);
+                if kind == "delete_node" {
+                    let props = if r.chance(1, 2) { gen_props(r) } else { json!({}) };
+                    due.push((wait, json!({"op":"create_node","labels":[r.below(2)],"props":props})));
+                }
+                if kind == "delete_edge" || r.chance(1, 2) {
+                    let props = if r.chance(1, 2) { gen_props(r) } else { json!({}) };
+                    due.push((wait + (kind == "delete_node") as u64, json!({"op":"create_edge","s":r.below(8),"t":r.below(8),"type":r.below(2),"props":props})));
+                }
+            }
+        }
+        for (_, e) in due {
+            case.events.push(e);
         }
         case
     }
@@ -426,6 +598,7 @@ impl Scenario for C07 {
         let lim = Limits::default();
         let late_edges = case.knob_bool("late_edges", true);
         let eng = if case.knob_bool("cypher", true) { Some(QueryEngine::new()) } else { None };
+        m.allow_reuse = case.knob_bool("reuse_ids", false);
         let mut rec = Recorded::default();
         let mut sig_parts: Vec<String> = Vec::new();
         for (step, ev) in case.events.iter().enumerate() {
@@ -447,13 +620,32 @@ impl Scenario for C07 {
             if (kind == "remove_prop" || kind == "remove_eprop") && m.current > 1 {
                 o.probe("remove_after_bump");
             }
-            let mut c = Check { g: &g, m: &m, step, trigger: &kind, out: Vec::new() };
+            if kind == "create_node" && a.desc().ends_with('r') {
+                o.probe("node_id_reused");
+            }
+            if kind == "create_edge" && a.desc().ends_with('r') {
+                o.probe("edge_id_reused");
+            }
+            let mut c = Check { g: &g, m: &m, step, trigger: &kind, out: Vec::new(), stop: false, resynced: false, reused_reads: (0, 0, 0) };
             check_all(&mut c, &mut rec, eng.as_ref());
-            if !c.out.is_empty() {
-                for v in c.out {
-                    o.violate(v);
-                }
+            if c.reused_reads.0 > 0 {
+                o.probe("reused_node_read_at_older_version");
+            }
+            if c.reused_reads.1 > 0 {
+                o.probe("reused_edge_read_at_older_version");
+            }
+            if c.reused_reads.2 > 0 {
+                o.probe("reused_edge_after_logged_predecessor_read_at_older_version");
+            }
+            let (stop, resynced) = (c.stop, c.resynced);
+            for v in c.out {
+                o.violate(v);
+            }
+            if stop {
                 break;
+            }
+            if resynced {
+                o.probe("went_on_after_lifetime_boundary_divergence");
             }
         }
         let mut later_write = false;
